@@ -235,8 +235,16 @@ func (m *StringifiedMessage) encode(d *Decoder, sb *strings.Builder, tagType byt
 }
 
 func writeEscapeStr(sb *strings.Builder, str string) {
+	if str == "" {
+		// an empty string has no unquoted form
+		sb.WriteString(`""`)
+		return
+	}
+	// A string that starts like a number ("123", "1b", "-7", "5.", "1.5east")
+	// would be read back as a number, or not at all.
+	numberLike := isNumber(str[0]) || str[0] == '-' || str[0] == '+' || str[0] == '.'
 	for _, v := range []byte(str) {
-		if !isAllowedInUnquotedString(v) {
+		if numberLike || !isAllowedInUnquotedString(v) {
 			// need quote
 			dc := strings.Count(str, `"`)
 			sc := strings.Count(str, `'`)
